@@ -579,10 +579,12 @@ func (e *c19Env) violate(c *c19Call) {
 		e.t.Violate("panic:"+c.Layer+"."+c.Method+":"+c19TopFrame(c.Stack), fmt.Sprintf("%s.%s panics (%s) on request %s", c.Layer, c.Method, c.Panic, c.Args), w)
 	case c.Hung && c.Work > c19WorkBound:
 		e.abort = true
+		e.t.Recycle()
 		w["storage_calls_so_far"] = c.Work
 		e.t.Violate("request-unbounded-work:"+c.Layer+"."+c.Method, fmt.Sprintf("%s.%s has not answered after %d storage calls (the largest accepted request of the grammar needs a few thousand) and is still running, with the wallet's locks held: request %s", c.Layer, c.Method, c.Work, c.Args), w)
 	case c.Hung:
 		e.abort = true
+		e.t.Recycle()
 		ok, sum, full := c20Structural()
 		w["goroutines"] = sum
 		if ok {
